@@ -259,13 +259,29 @@ def self_test_judge(ctx, js, path):
         bad_lines.append(json.dumps(r, separators=(",", ":")))
     if not bad_lines:
         raise vlib.Infra("self-test: no successful parse recorded")
+    # originals first, then their corrupted twins: a corrupted record must be rejected whenever its
+    # original is accepted (with a defective tree an original may itself be inexplicable)
     p = os.path.join(ctx.workdir, "selftest.ndjson")
     with open(p, "w") as f:
-        f.write("\n".join(bad_lines) + "\n")
-    bad = vlib.judge_trace(ctx, JUDGE, JUDGE_CFG, p, nchunks=1, boundary_key=None)
-    if len(bad) != len(bad_lines):
-        raise vlib.Infra("self-test: judge rejected %d of %d corrupted records" % (len(bad), len(bad_lines)))
-    ctx.extra["judge_self_test"] = {"corrupted_records": len(bad_lines), "rejected": len(bad)}
+        f.write("\n".join(picks + bad_lines) + "\n")
+    bad = {b["l"] for b in vlib.judge_trace(ctx, JUDGE, JUDGE_CFG, p, nchunks=1, boundary_key=None)}
+    n = len(picks)
+    usable = [i for i in range(n) if (i + 1) not in bad]
+    missed = [i for i in usable if (n + i + 1) not in bad]
+    if missed or not usable:
+        raise vlib.Infra("self-test: judge accepted corrupted records %s (usable %d)" % (
+            [bad_lines[i][:200] for i in missed], len(usable)))
+    ctx.extra["judge_self_test"] = {"corrupted_records": len(usable), "rejected": len(usable) - len(missed)}
+
+
+def guarded_self_test(ctx, js, path):
+    """verdicts already taken about the real code are never lost to a failing self-test"""
+    try:
+        self_test_judge(ctx, js, path)
+    except vlib.Infra as e:
+        if not ctx.violations:
+            raise
+        vlib.log("judge self-test not conclusive on this tree (violations are reported): %s" % str(e)[:300])
 
 
 # --------------------------------------------------------------------------- entry points
@@ -300,7 +316,7 @@ def run(ctx):
         tp = os.path.join(ctx.workdir, "recorded.ndjson")
         rc, out = vlib.run_harness(binary, ["record", tp, 4, 4, 200, 10, ctx.seed, 0, 1], timeout=600)
         total += judge_file(ctx, js, tp, "argv <= 4 exhaustive + random", rc, out)
-        self_test_judge(ctx, js, tp)
+        guarded_self_test(ctx, js, tp)
         sample_from(ctx, js, tp)
     else:
         parts = 4
@@ -312,7 +328,7 @@ def run(ctx):
         for k in range(parts):
             rc, out = outs[k]
             total += judge_file(ctx, js, paths[k], "argv <= 5 (<= 6 cheap shapes) exhaustive + random, part %d" % k, rc, out, nchunks=48)
-        self_test_judge(ctx, js, paths[0])
+        guarded_self_test(ctx, js, paths[0])
         sample_from(ctx, js, paths[0])
         for p in paths:
             os.unlink(p)
